@@ -95,6 +95,9 @@ def shards(tier):
                     out.append({'C': C, 'T': T, 'style': st, 'mode': 'pairs'})
                 if T <= b['Tt']:
                     out.append({'C': C, 'T': T, 'style': st, 'mode': 'triples'})
+    for C in (2, 4):
+        for st in ('peaky', 'tie_up'):
+            out.append({'C': C, 'T': 300, 'style': st, 'mode': 'long'})      # sizes beyond 255: long lines and a batch of 300 lines
     return out
 
 
@@ -103,6 +106,16 @@ def run_shard(shard, ctx, tier):
     import sys
     mod = sys.modules[__name__]
     C, T, st = shard['C'], shard['T'], shard['style']
+    if shard['mode'] == 'long':
+        # lines of 300 frames: symbols changing every frame / every 2nd / every 7th frame, and one with 256 identical frames first
+        longs = [[(i // k) % C for i in range(T)] for k in (1, 2, 7)] + [[0] * 256 + [(i % C) for i in range(T - 256)]]
+        for p in longs:
+            guarded_check(mod, {'C': C, 'T': T, 'style': st, 'lines': [p]}, ctx)
+        guarded_check(mod, {'C': C, 'T': T, 'style': st, 'lines': longs}, ctx)
+        # a batch of 300 three-frame lines (every arg-max path, repeated)
+        short = [list(p) for p in itertools.product(range(C), repeat=3)]
+        guarded_check(mod, {'C': C, 'T': 3, 'style': st, 'lines': [short[i % len(short)] for i in range(300)]}, ctx)
+        return
     paths = [list(p) for p in itertools.product(range(C), repeat=T)]
     base = {'C': C, 'T': T, 'style': st}
     if shard['mode'] == 'level':
@@ -131,6 +144,8 @@ def check_case(case, ctx):
     K = f'{ID}/C{C}'
     for p in paths:
         ctx.state((C, tuple(p)))
+    if len(paths) > 255 or T > 255:
+        ctx.tag('more-than-255-frames-or-lines')
     ctx.outcome(tuple(want) if len(want) <= 3 else len(set(want)))
 
     def first_bad(got):
@@ -238,5 +253,5 @@ def describe(tier):
         'bounds': b, 'alphabets': {'styles': STYLES, 'classes': [2, 3, 4]},
         'assumptions': ['with exact ties the arg-max is the first maximal index (numpy / torch convention)', 'scores are integers 0..255 so that they can be painted into uint8 line images'],
         'min_nontrivial': 50,
-        'required_tags': ['huge-scores', 'repeat-merged', 'first-frame-non-blank', 'all-blank-line', 'batch-with-empty-and-non-empty-lines'],
+        'required_tags': ['more-than-255-frames-or-lines', 'huge-scores', 'repeat-merged', 'first-frame-non-blank', 'all-blank-line', 'batch-with-empty-and-non-empty-lines'],
     }
